@@ -4,6 +4,7 @@
 -/
 import PgVerif.Model.Rows
 import PgVerif.Spec.Rows
+import PgVerif.Proofs.InlineComp
 namespace PgVerif.Proofs.Rows
 open PgVerif PgVerif.Model PgVerif.Spec
 
@@ -75,11 +76,11 @@ theorem readVarlena_ext (body rest : Bytes) (hb : body.length = 16) :
   simp only [List.getElem?_cons_succ, List.getElem?_cons_zero, ok_bind]
   rw [if_pos (by decide)]
 
-/-- a 4-byte header `h` = 4·total or 4·total + 2 (inline compressed): same reading -/
-theorem readVarlena_long (h : Nat) (p rest : Bytes) (hh : h = (p.length + 4) * 4 ∨ h = (p.length + 4) * 4 + 2)
+/-- an uncompressed 4-byte header `h` = 4·total (low bits 00) -/
+theorem readVarlena_long (h : Nat) (p rest : Bytes) (hh : h = (p.length + 4) * 4)
     (hlt : p.length + 4 < 2 ^ 30) :
     readVarlena (le 4 h ++ (p ++ rest)) = .ok (some p, p.length + 4) := by
-  have h32 : h < 256 ^ 4 := by rcases hh with e | e <;> omega
+  have h32 : h < 256 ^ 4 := by omega
   have hrd : rd 4 ((le 4 h ++ (p ++ rest)).drop 0) = h := by simpa using rd_le 4 h (p ++ rest) h32
   have hb : (UInt8.ofNat (h % 256)).toNat = h % 256 := by simp [UInt8.toNat_ofNat']
   have htd := take_drop_mid (le 4 h) p rest 4 (by simp)
@@ -90,14 +91,41 @@ theorem readVarlena_long (h : Nat) (p rest : Bytes) (hh : h = (p.length + 4) * 4
   rw [if_neg (by omega)]
   have hi : idx X 0 = .ok (UInt8.ofNat (h % 256)) := by rw [hX]; rfl
   simp only [hi, ok_bind, hb]
-  have c1 : ¬ (h % 256 % 2 = 1 ∧ h % 256 ≠ 1) := by rcases hh with e | e <;> omega
-  have c2 : ¬ (h % 256 = 1) := by rcases hh with e | e <;> omega
+  have c1 : ¬ (h % 256 % 2 = 1 ∧ h % 256 ≠ 1) := by omega
+  have c2 : ¬ (h % 256 = 1) := by omega
   rw [if_neg c1, if_neg c2, if_neg (by omega)]
   rw [uN_ok 4 X 0 (by omega)]
   simp only [ok_bind, hrd]
-  have h4 : h / 4 = p.length + 4 := by rcases hh with e | e <;> omega
-  rw [h4, if_neg (by omega), slice_ok _ _ _ (by omega) (by omega)]
+  have h4 : h / 4 = p.length + 4 := by omega
+  rw [h4, if_neg (by omega), if_neg (by omega), slice_ok _ _ _ (by omega) (by omega)]
   simp only [ok_bind, pure_eq_ok, htd]
+
+/-- an inline-compressed value (header 4·total + 2, then va_tcinfo and the rendering of any valid pglz / LZ4 stream):
+ReadVarlena returns the ORIGINAL bytes and consumes the stored length (fix 09) -/
+theorem readVarlena_comp (z : Comp) (rest : Bytes) (hz : z.WF) (hlt : z.stored.length + 4 < 2 ^ 30) :
+    readVarlena (le 4 ((z.stored.length + 4) * 4 + 2) ++ (z.stored ++ rest)) = .ok (some z.original, z.stored.length + 4) := by
+  have henc := InlineComp.inlineDecompress_enc z (le 4 ((z.stored.length + 4) * 4 + 2)) rest (by simp) hz
+  have hs4 : 4 ≤ z.stored.length := by simp [Comp.stored]
+  generalize hh : (z.stored.length + 4) * 4 + 2 = h at henc
+  generalize z.stored = p at henc hs4 hh hlt
+  have h32 : h < 256 ^ 4 := by omega
+  have hrd : rd 4 ((le 4 h ++ (p ++ rest)).drop 0) = h := by simpa using rd_le 4 h (p ++ rest) h32
+  have hb : (UInt8.ofNat (h % 256)).toNat = h % 256 := by simp [UInt8.toNat_ofNat']
+  have hX : le 4 h ++ (p ++ rest) = UInt8.ofNat (h % 256) :: (le 3 (h / 256) ++ (p ++ rest)) := rfl
+  have hlenX : (le 4 h ++ (p ++ rest)).length = 4 + (p.length + rest.length) := by simp
+  generalize le 4 h ++ (p ++ rest) = X at hrd hX hlenX henc
+  unfold readVarlena
+  rw [if_neg (by omega)]
+  have hi : idx X 0 = .ok (UInt8.ofNat (h % 256)) := by rw [hX]; rfl
+  simp only [hi, ok_bind, hb]
+  have c1 : ¬ (h % 256 % 2 = 1 ∧ h % 256 ≠ 1) := by omega
+  have c2 : ¬ (h % 256 = 1) := by omega
+  rw [if_neg c1, if_neg c2, if_neg (by omega)]
+  rw [uN_ok 4 X 0 (by omega)]
+  simp only [ok_bind, hrd]
+  have h4 : h / 4 = p.length + 4 := by omega
+  rw [h4, if_neg (by omega), if_pos ⟨by omega, by omega⟩, henc]
+  rfl
 
 /-! ### readValue -/
 
@@ -281,20 +309,20 @@ theorem step (dec : Dec) (mc : Column) (c : Col) (d : Datum) (hl : mc.len = c.le
       have : pre ++ (formDatum c pre.length (.long p) ++ rest)
           = (pre ++ pad pre.length c.align) ++ (le 4 ((p.length + 4) * 4) ++ (p ++ rest)) := by simp [formDatum]
       rw [this, readValue_shift, hlen, readValue_varlena _ _ _ (by simp; omega),
-        readVarlena_long _ p rest (Or.inl rfl) hp]
+        readVarlena_long _ p rest rfl hp]
       simp only [ok_bind, expectedVal]
     · rw [hland]; simp only [formDatum, List.length_append, pad_length, le_length]; omega
-  | compressed raw =>
-    obtain ⟨hlen, h4, hp⟩ := hd
+  | compressed z =>
+    obtain ⟨hlen, hzwf, hp⟩ := hd
     have hland : Model.align pre.length
-        (if c.len = -1 ∧ pre.length < (pre ++ (formDatum c pre.length (.compressed raw) ++ rest)).length ∧
-          (pre ++ (formDatum c pre.length (.compressed raw) ++ rest))[pre.length]?.getD 0 ≠ 0 then 1 else c.align)
+        (if c.len = -1 ∧ pre.length < (pre ++ (formDatum c pre.length (.compressed z) ++ rest)).length ∧
+          (pre ++ (formDatum c pre.length (.compressed z) ++ rest))[pre.length]?.getD 0 ≠ 0 then 1 else c.align)
         = alignUp pre.length c.align := by
       by_cases hpad : alignUp pre.length c.align = pre.length
       · split
         · simp [Model.align, hpad]
         · rw [align_eq_alignUp _ _ ha]
-      · have hz : (pre ++ (formDatum c pre.length (.compressed raw) ++ rest))[pre.length]?.getD 0 = 0 := by
+      · have hz : (pre ++ (formDatum c pre.length (.compressed z) ++ rest))[pre.length]?.getD 0 = 0 := by
           rw [getD_at_prefix]
           have : 0 < alignUp pre.length c.align - pre.length := by omega
           simp only [formDatum, pad, zeros]
@@ -303,12 +331,12 @@ theorem step (dec : Dec) (mc : Column) (c : Col) (d : Datum) (hl : mc.len = c.le
           | zero => omega
           | succ k => simp [List.replicate_succ]
         rw [if_neg (by intro ⟨_, _, h⟩; exact h hz), align_eq_alignUp _ _ ha]
-    refine ⟨_, raw.length + 4, rfl, ?_, ?_⟩
+    refine ⟨_, z.stored.length + 4, rfl, ?_, ?_⟩
     · rw [hland, ← hpadlen]
-      have : pre ++ (formDatum c pre.length (.compressed raw) ++ rest)
-          = (pre ++ pad pre.length c.align) ++ (le 4 ((raw.length + 4) * 4 + 2) ++ (raw ++ rest)) := by simp [formDatum]
+      have : pre ++ (formDatum c pre.length (.compressed z) ++ rest)
+          = (pre ++ pad pre.length c.align) ++ (le 4 ((z.stored.length + 4) * 4 + 2) ++ (z.stored ++ rest)) := by simp [formDatum]
       rw [this, readValue_shift, hlen, readValue_varlena _ _ _ (by simp; omega),
-        readVarlena_long _ raw rest (Or.inr rfl) hp]
+        readVarlena_comp z rest hzwf hp]
       simp only [ok_bind, expectedVal]
     · rw [hland]; simp only [formDatum, List.length_append, pad_length, le_length]; omega
 
